@@ -693,7 +693,7 @@ class Interp:
                     or isinstance(x, (ast.Await, ast.Yield, ast.YieldFrom, ast.Lambda, ast.ListComp, ast.GeneratorExp, ast.DictComp, ast.SetComp))
                     for x in ast.walk(vnode)) and not isinstance(vnode, (ast.List, ast.Dict, ast.Tuple, ast.Set)) \
                     and not any(isinstance(x, ast.Name) and x.id == target.id for x in ast.walk(vnode)) \
-                    and target.id not in self.shared_locals:
+                    and target.id not in self.shared_locals and not st.weak:
                 st.expr[target.id] = vnode
             else:
                 st.expr.pop(target.id, None)
@@ -881,6 +881,13 @@ class Interp:
                 return (not o) if neg else o
         if isinstance(test, ast.Constant):
             return bool(test.value)
+        # a local flag bound to a constant on this path (failed = False ... except: failed = True ... if not failed:)
+        folded = self.subst_pure(st, test)
+        fneg = False
+        while isinstance(folded, ast.UnaryOp) and isinstance(folded.op, ast.Not):
+            folded, fneg = folded.operand, not fneg
+        if isinstance(folded, ast.Constant) and (isinstance(folded.value, bool) or folded.value is None) and not st.weak:
+            return (not bool(folded.value)) if fneg else bool(folded.value)
         core = test
         while isinstance(core, ast.UnaryOp) and isinstance(core.op, ast.Not):
             core = core.operand
